@@ -1,6 +1,6 @@
 (* C01 — the response parser is total: no panic, no stack exhaustion (bounded call depth), no loop. *)
 From TI Require Import Bytes Grammar Nom Interp InterpFacts Thm_Fuel Thm_NoPanic Natives NativesProofs PanicAllow Proofs_C01.
-From TI.gen Require Import ImapGrammar PanicSites.
+From TI.gen Require Import Tables ImapGrammar PanicSites.
 
 (* every input gets one of the legitimate verdicts; RPanic (an unwrap/index/slice failed, a missing
    definition, an untranslatable node) and RFuel (call depth or loop counter exhausted) never occur *)
@@ -62,3 +62,9 @@ Proof. exact run_no_fuel. Qed.
 Check c01_generic_no_fuel : forall natf env rk, (forall f g d, env f = Some g -> need rk g d <= rk f d) ->
   forall n g d b i, need rk g d <= N.of_nat n -> (0 < n)%nat -> (length i < b)%nat -> run natf env b n g d i <> RFuel.
 Print Assumptions c01_generic_no_fuel.
+
+(* the public entry point Response::from_bytes is exactly the modelled parser: its body is the call and nothing else *)
+Theorem c01_entry_point_is_parse_response : gen_from_bytes_body = "crate::parser::parse_response(buf)"%string.
+Proof. reflexivity. Qed.
+Check c01_entry_point_is_parse_response : gen_from_bytes_body = "crate::parser::parse_response(buf)"%string.
+Print Assumptions c01_entry_point_is_parse_response.
